@@ -38,7 +38,7 @@ EXPLANATION_ADD = ' Additions: (CK-zero) the checksum field is written with 0 on
 EXPLANATION = EXPLANATION + EXPLANATION_ADD
 RESIDUAL = [
     "decode(encode(m)) == m and encode(decode(b)) == b on values (round trip)",
-    "checksum arithmetic over all alignments (ones-complement folding)",
+    "checksum arithmetic over all alignments beyond the carry folds (CK-narrow proves every narrowing cast of the digest lossless; byte-order handling of unaligned/odd slices is not decided)",
     "reader/writer agreement per field beyond sharing the layout table (pinned by the round-trip proptests)",
 ]
 ASSUMPTIONS = ["tables/scion_wire.toml transcribes the SCION specification correctly (reviewed by hand)",
